@@ -52,6 +52,12 @@ def run(tier, seed, replay=None):
             res.violation({"property": PID, "kind": "package vm writes into a syntax-tree node it did not create", "write": w,
                            "note": "static finding (go/types); the dynamic runs of this check did not necessarily exercise it"},
                           "no-failing-input-found" if nprob == 0 else "")
+        HOST_SWITCHES = ["parser: EnableDebug assigns yyDebug", "parser: EnableErrorVerbose assigns yyErrorVerbose"]
+        for w in [w for w in (meta.get("package_state_writes") or []) if w not in HOST_SWITCHES][:6]:
+            res.violation({"property": PID, "kind": "package-level state written while scripts are parsed or run (state shared between executions)", "write": w,
+                           "note": "static finding (go/types over vm, parser, core, env, ast, ast/astutil; Obligations/C14.v runs_share_no_package_state); "
+                                   "the dynamic runs of this check did not necessarily exercise it"},
+                          "no-failing-input-found" if not res.violations else "")
         if bad:
             res.violation({"property": PID, "kind": "forbidden construct in the Coq development", "lines": bad}, "no-failing-input-found")
         if ob["failed"] and not res.violations:
@@ -60,7 +66,7 @@ def run(tier, seed, replay=None):
             "obligations": ob["obligations"], "discharged": ob["discharged"], "theorems": ob["theorems"], "axioms": ob["axioms"],
             "closed_under_global_context": ob["closed_count"],
             "checker_cmd": "make -C coq; coqc Properties/C14.v; per run: harness c14 (built with -race) regenerates AnkoGen/GenAstWrites.v, "
-                           "coqc Obligations/C14.v (non_fresh_ast_writes = [])",
+                           "coqc Obligations/C14.v (non_fresh_ast_writes = []; package_state_writes = the two parser debugging switches)",
             "trusted_base": common.TRUSTED_COMMON + [
                 "go/types based write-set analysis of package vm (harness/c14.go vmAstWrites): syntactic freshness rule, usual aliasing caveats",
                 "Go race detector; reflection-based full tree dump (every field, positions, literal values, CallExpr.Func validity)"],
